@@ -298,14 +298,7 @@ def step (elem : Bool) (st : St) (w : List String) : St × String :=
           | some k =>
             if k > 64 ∨ ¬ t.init ∨ t.fini.isNone ∨ off.natAbs > 1000000 then bad
             else
-              let first := m.next
-              let m1 := sourcesInit m k
-              let r := arraySet m1 h (some t) (sourcesBytes first k t.size) true off
-              let r' : Out Nat := match r with
-                | .ok s v => .ok (sourcesFini s first k) v
-                | .fail s e => .fail (sourcesFini s first k) e
-                | .fault w => .fault w
-              finish elem st r' noDetail offRet [refAlt st]
+              finish elem st (setOpE m h t off k true) noDetail offRet [refAlt st]
           | none => bad
         | some t, some off, some (bytes, isnull) =>
           if off.natAbs > 1000000 then bad
